@@ -13,5 +13,6 @@ CONSTANTS N = 2
   G_WALKDEPTH = FALSE
   G_FILTERTOP = TRUE
   FSTREAM = FALSE
+  G_NAVACC = TRUE
 PROPERTY Termination
 CHECK_DEADLOCK FALSE
